@@ -81,10 +81,12 @@ void harness(void)
 
     int rp = ref_path(msg);
     int rt = ref_types(msg + COMMA + 1);
+    RT_BEGIN();
     const char *pe = 0;
     bool m = rtosc_match(PATTERN, msg, &pe);
     const char *pe2 = 0;
     const char *mp = rtosc_match_path(PATTERN, msg, &pe2);
+    RT_END();
 
     if(rp < 0) {
         CHECK(!m, "C05 address not spelled by the pattern never matches");
